@@ -143,6 +143,43 @@ def verdict_ob(ctx: Ctx, rule: str, fn: FunctionInfo, node: ast.AST, construct: 
             ctx.ob(rule, fn, node, construct, None, v.detail or v.status)
 
 
+DRAW_NAMES = ("randint", "random_float", "random", "read", "get", "choice", "random_bool")
+
+
+def _point_witness(ctx: Ctx, fn: FunctionInfo, integer: bool):
+    """When the affine domain cannot express a result (a product of two unknowns, ...), the function is interpreted
+    (sa/modelinterp, exact integers) at a grid of concrete bounds and gene values - gene lists may hold any non-negative
+    integer after mutation.  A result outside [min, max] at one point is a definite counterexample; none found decides
+    nothing."""
+    from ..modelinterp import Budget, Interp, Sym, UNKNOWN
+    params = [p for p in fn.params if p != "self"]
+    bounds = [(0, 1), (0, 2000), (-5, 5), (3, 3), (0, 10 ** 6), (-7, 3000)]
+    genes = [0, 1, 2, 1023, 1024, 1025, 5000, 2 ** 31 + 11, 2 ** 63 - 1]
+    for lo, hi in bounds:
+        for g in genes:
+            def call_model(it, call, env, args, kwargs, g=g):
+                nm = call_name(call)
+                if nm in ("read", "get") and isinstance(call.func, ast.Attribute):
+                    return g
+                if nm == "randint" and isinstance(call.func, ast.Attribute) and len(args) == 2 and all(isinstance(a, int) for a in args) and args[0] <= args[1]:
+                    return args[0] + g % (args[1] - args[0] + 1)
+                if nm in ("random", "random_float") and isinstance(call.func, ast.Attribute):
+                    return (g % 1000) / 1000.0 if nm == "random" or len(args) < 2 else args[0] + (args[1] - args[0]) * ((g % 1000) / 1000.0)
+                return None
+            it = Interp(ctx.prog, fn.cls, lambda *_: None, call_model, max_depth=4, max_traces=8)
+            env = {"self": Sym("self"), params[0]: lo if integer else float(lo), params[1]: hi if integer else float(hi)}
+            try:
+                runs = it.run(fn, env)
+            except Budget:
+                continue
+            for trace, rv, notes in runs:
+                if notes or any(e.kind == "raise" for e in trace):
+                    continue
+                if isinstance(rv, (int, float)) and not isinstance(rv, bool) and not (lo <= rv <= hi):
+                    return {"min": lo, "max": hi, "gene": g, "result": rv}
+    return None
+
+
 def check_bounded(ctx: Ctx, rule: str, fn: FunctionInfo, integer: bool) -> None:
     """result of fn(min, max) lies in [min, max] for all min <= max."""
     params = [p for p in fn.params if p != "self"]
@@ -178,7 +215,13 @@ def check_bounded(ctx: Ctx, rule: str, fn: FunctionInfo, integer: bool) -> None:
                        f"{what} {bad[0][1]} is not positive at {bad[0][2]} (ZeroDivisionError / out-of-range result)",
                        witness=bad[0][2])
             else:
-                ctx.ob(rule, fn, o.node, f"result within [min, max] on path [{cond}]", None, f"opaque result: {v.why}")
+                w = _point_witness(ctx, fn, integer)
+                if w is not None:
+                    ctx.ob(rule, fn, o.node, f"result within [min, max] on path [{cond}]", False,
+                           f"for bounds [{w['min']}, {w['max']}] and a gene / inner draw of {w['gene']} the result is {w['result']}: outside the bounds "
+                           f"(gene lists hold any non-negative integer after mutation)", witness=w)
+                else:
+                    ctx.ob(rule, fn, o.node, f"result within [min, max] on path [{cond}]", None, f"opaque result: {v.why}")
             continue
         if not isinstance(v, Lin):
             ctx.ob(rule, fn, o.node, f"result within [min, max] on path [{cond}]", None, f"non-numeric result {v!r}")
@@ -434,14 +477,19 @@ def weighted_selection_model(ctx: Ctx, f: FunctionInfo, rule: str) -> None:
     choices, weights = f.params[1], f.params[2]
     bad = und = None
     n = 0
-    for ws in ([0, 1], [1, 0], [0.5, 0, 1.5], [2, 1], [0, 0, 1], [1, 1, 1]):
+    for ws in ([0, 1], [1, 0], [0.5, 0, 1.5], [2, 1], [0, 0, 1], [1, 1, 1], [0, 1 / 3, 1 / 3, 1 / 3], [0.7, 0.1, 0.2]):
         opts = syms("o", len(ws))
         acc, th = 0, []
         for w in ws:
             acc += w
             th.append(int(acc * 100000))
+        # a second, equally valid discretisation: every weight truncated on its own (differs by one unit for fractions)
+        acc2, th2 = 0, []
+        for w in ws:
+            acc2 += int(w * 100000)
+            th2.append(acc2)
         try:
-            runs = explore(ctx, f.cls, f, {"self": Sym("self"), choices: list(opts), weights: list(ws)}, marks=tuple(th))
+            runs = explore(ctx, f.cls, f, {"self": Sym("self"), choices: list(opts), weights: list(ws)}, marks=tuple(sorted(set(th + th2))))
         except Budget:
             und = "too many interpretations"
             continue
@@ -457,8 +505,11 @@ def weighted_selection_model(ctx: Ctx, f: FunctionInfo, rule: str) -> None:
             n += 1
             d = draws[0]
             want = next((o for o, t in zip(opts, th) if d < t), None)
+            want2 = next((o for o, t in zip(opts, th2) if d < t), None)
             if rv is UNKNOWN:
                 und = und or "returned option not followed"
+            elif want2 is not None and rv == want2:
+                pass
             elif want is None:
                 bad = bad or (f"weights {ws}: the draw {d} is not below the total weight {th[-1]}: it falls through every comparison and "
                               f"{rv!r} is returned whatever its weight", ws)
